@@ -359,3 +359,45 @@ def run_nzfilter(prog, fn="QSexact_print_sol", rule="R-NZFILTER"):
     res.counts["value_prints"] = len(sections)
     res.floor("value prints", len(sections), 4)
     return res
+
+
+def run_bgate(prog, rule="R-BGATE"):
+    """-b writes a basis only where there is one.  QSexact_solver leaves a basis in the problem on the OPTIMAL routes only; for a correctly
+    diagnosed INFEASIBLE / UNBOUNDED problem QSwrite_basis has nothing to write and fails, and its error became the exit status.  In
+    main, every call of QSwrite_basis is dominated by a test of the solve status against QS_LP_OPTIMAL (the variable the solution-file
+    switch dispatches on) or of the problem's basis pointer."""
+    res = RuleResult(rule, "in esolver's main the basis file is written only behind a test of the solve status (OPTIMAL) or of the problem's basis")
+    f = prog.require_fn("main", unit="esolver/esolver.c")
+    sv = _status_var(f)
+    dom, succ = dominators(prog, f)
+    n = 0
+    for b, i, c in f.calls():
+        if not (callee(c) or "").endswith("QSwrite_basis"):
+            continue
+        n += 1
+        res.obligations += 1
+        res.nontrivial += 1
+        ok = None
+        for d in f.live:
+            if d == b["id"] or d not in dom.get(b["id"], ()):
+                continue
+            cnd = f.blocks[d].get("c")
+            if cnd is None:
+                continue
+            for nd in walk(cnd):
+                if isinstance(nd, list) and nd and nd[0] == "b" and nd[1] in ("==", "!="):
+                    for a, b_ in ((nd[2], nd[3]), (nd[3], nd[2])):
+                        b0 = strip(b_)
+                        if is_var(a, name=sv) and isinstance(b0, list) and b0 and b0[0] == "n" and len(b0) > 2 and b0[2] == "QS_LP_OPTIMAL":
+                            ok = "behind a test of %s against QS_LP_OPTIMAL" % sv
+                if isinstance(nd, list) and nd and nd[0] == "m" and nd[2].endswith("qsdata::basis"):
+                    ok = ok or "behind a test of the problem's basis"
+        if ok:
+            res.sample({"site": "%s: %s" % (short_loc(c[4]), show(c)[:60]), "verdict": ok})
+        else:
+            res.violations.append(Violation(rule, "main|basis written without a test of the status", "main", short_loc(c[4]),
+                                            "%s is reached for every status: for an INFEASIBLE / UNBOUNDED problem there is no basis, the call fails and its "
+                                            "error becomes the exit status of a run that diagnosed the problem correctly" % show(c)[:60]))
+    res.counts["basis_write_sites_in_main"] = n
+    res.floor("QSwrite_basis call sites in esolver's main", n, 1)
+    return res
